@@ -96,9 +96,32 @@ ZAnswer(c) ==
                            ELSE [err |-> FALSE, nil |-> FALSE, node |-> nodeOf(Z!ZMin(z))]
     [] OTHER            -> [err |-> FALSE]
 
+\* ---------------------------------------------------------------- KV paging (C03)
+\* The state is a status per key of a small universe with nested prefixes;
+\* every state is an initial state (no transitions between them), and for
+\* each one every PrefixScan / PrefixSearchScan query is emitted.
+PKeys == {<<97>>, <<97, 98>>, <<97, 98, 99>>, <<98>>, <<98, 99>>}      \* a ab abc b bc
+PKeysUsed == IF MaxLen >= 5 THEN PKeys ELSE {k \in PKeys : k # <<98, 99>>}
+PStatus == {"absent", "live", "deleted", "expired"}
+PPrefixes == {<<>>, <<97>>, <<97, 98>>, <<98>>, <<99>>}
+PRegs == {".*", "^$", "c", "^b"}
+PRec(st) == IF st = "deleted" THEN [v |-> "", ttl |-> 0, tsLo |-> 0, tsHi |-> 0, del |-> TRUE]
+            ELSE [v |-> "v", ttl |-> (IF st = "expired" THEN 500 ELSE 0), tsLo |-> 0, tsHi |-> 0, del |-> FALSE]
+PStates ==
+  {[kv |-> [p \in {<<B, k>> : k \in {x \in PKeysUsed : f[x] # "absent"}} |-> PRec(f[p[2]])],
+    ls |-> <<>>, st |-> <<>>, zs |-> <<>>] : f \in [PKeysUsed -> PStatus]}
+PageCalls ==
+  LET n == Cardinality(PKeysUsed) IN
+       [op : {"pscan"}, b : {B}, p : PPrefixes, off : 0..(n + 1), lim : (0 - 1)..(n + 1)]
+  \cup [op : {"psscan"}, b : {B}, p : PPrefixes, off : {0}, lim : (0 - 1)..(n + 1), reg : PRegs]
+PrePage == [kv |-> [i \in 1..Len(SortBytes({q[2] : q \in DOMAIN mem.kv})) |->
+              LET k == SortBytes({q[2] : q \in DOMAIN mem.kv})[i] r == mem.kv[<<B, k>>] IN
+              [k |-> k, st |-> IF r.del THEN "deleted" ELSE IF r.ttl > 0 THEN "expired" ELSE "live"]]]
+
 \* ---------------------------------------------------------------- the machine
-Calls == CASE Kind = "list" -> ListCalls [] Kind = "set" -> SetCalls [] Kind = "zset" -> ZCalls
+Calls == CASE Kind = "list" -> ListCalls [] Kind = "set" -> SetCalls [] Kind = "zset" -> ZCalls [] Kind = "kvpage" -> PageCalls
 Answer(c) == CASE Kind = "list" -> ListAnswer(c) [] Kind = "set" -> SetAnswer(c) [] Kind = "zset" -> ZAnswer(c)
+               [] Kind = "kvpage" -> [err |-> FALSE]
 
 Full(c) == c @@ Answer(c)     \* the call record completed with the specification's answer
 
@@ -110,8 +133,11 @@ PreZ    == [i \in 1..Cardinality(DOMAIN CurZ) |->
 Pre == CASE Kind = "list" -> [list |-> PreList]
          [] Kind = "set"  -> [sets |-> [k \in SK |-> SetToSeq(SetOf(mem, B, k))]]
          [] Kind = "zset" -> [z |-> PreZ]
+         [] Kind = "kvpage" -> PrePage
 
-GInit == Init /\ out = <<>>
+GInit ==
+  /\ status = "open" /\ log = <<>> /\ tx = NoTx /\ notes = {} /\ out = <<>>
+  /\ IF Kind = "kvpage" THEN mem \in PStates ELSE mem = Empty
 
 \* One call, evaluated on the committed state as a single-operation
 \* transaction: the successor is what Nuts.tla says the commit produces.
@@ -132,6 +158,7 @@ GBound ==
   CASE Kind = "list" -> Len(CurList) <= MaxLen
     [] Kind = "set"  -> \A k \in SK : Cardinality(SetOf(mem, B, k)) <= MaxLen
     [] Kind = "zset" -> Cardinality(DOMAIN CurZ) <= MaxLen
+    [] Kind = "kvpage" -> TRUE
 
 GView == mem
 
@@ -146,6 +173,7 @@ GInv ==
               LET r == L!LRangeOf(CurList, s, e) IN Len(r) <= Len(CurList)
          /\ L!LRangeOf(CurList, 0, 0 - 1) = CurList
     [] Kind = "set"  -> TRUE
+    [] Kind = "kvpage" -> TRUE
     [] Kind = "zset" ->
          LET o == Z!ZOrder(CurZ) IN
          /\ \A i \in 1..Len(o) : Z!ZRankOf(CurZ, o[i]) = i
